@@ -18,7 +18,7 @@ RULE = ('histories: Kekule seed molecule (corpus <= 30 atoms, curated, construct
         'with reads of drawn subsets of 14 derived values (so values are cached in every order). after every step an independently '
         'rebuilt molecule (fresh container, same numbers and insertion order, labels transferred through the public setters) must '
         'report the same values; rollback restores the pre-transaction values; editing a derived object leaves its source unchanged. '
-        'plus (exhaustive tier) every ordered pair of concrete operations (~170 per seed) on 8 seeds of <= 4 atoms, once with all values '
+        'plus (exhaustive tier) every ordered pair of concrete operations (~145 per seed) on 8 seeds of <= 4 atoms, once with all values '
         'read after every step and once with single rotating reads before and between (quick: 1/40 slice rotating with the seed). '
         'half of the random histories likewise read only at the drawn read steps and at the end. '
         'non-trivial = history has read -> mutate -> read on the same value; distinct by operation list')
@@ -58,7 +58,9 @@ def concrete_ops():
     out += [('delete_atom', a, 0, 0) for a in range(5)]
     out += [('delete_bond', a, 0, 0) for a in range(5)]
     out += [('commit', a, 0, 0) for a in range(5)] + [('commit', a, 1, c) for a in range(5) for c in range(3)]
+    out += [('commit', a, 3, c) for a in range(4) for c in range(4)]
     out += [('rollback', a, b, c) for a in range(5) for b in (0, 1) for c in (0, 1)]
+    out += [('rollback', a, b, c) for a in range(3) for b in (2, 3) for c in (2, 4)]
     out += [('remap', 0, 0, 0), ('remap', 1, 1, 0), ('copy', 0, 0, 0)]
     out += [('substructure', a, 0, 0) for a in range(3)]
     out += [(op, a, 0, 0) for op in ('union', 'ior') for a in (0, 5, 9)]
@@ -316,17 +318,37 @@ def check_case(case, rec):
                 history.append(f'delete_bond:{x}-{y}')
             elif op == 'commit':
                 x = nums[a % len(nums)]
-                with m:
-                    if b % 2:
-                        m.atom(x).charge = [-1, 0, 1][c % 3]
-                    else:
-                        m.atom(x).is_radical = not m.atom(x).is_radical
-                history.append(f'commit:{x}')
+                if b % 4 == 3:
+                    # several structural edits in one transaction (hydrogens are recalculated once, at the end)
+                    done = []
+                    with m:
+                        y = nums[(a + 1 + c) % len(nums)]
+                        if y != x and not m.has_bond(x, y):
+                            m.add_bond(x, y, 1)
+                            done.append(f'add_bond:{x}-{y}')
+                        bl = [(p, q) for p, q, _ in m.bonds() if {p, q} != {x, y}]
+                        if bl:
+                            p, q = bl[c % len(bl)]
+                            m.delete_bond(p, q)
+                            done.append(f'delete_bond:{p}-{q}')
+                        if c % 2:
+                            k = m.add_atom('C')
+                            m.add_bond(nums[c % len(nums)], k, 1)
+                            done.append('add_atom')
+                    history.append('commit[' + ';'.join(done) + ']')
+                else:
+                    with m:
+                        if b % 2:
+                            m.atom(x).charge = [-1, 0, 1][c % 3]
+                        else:
+                            m.atom(x).is_radical = not m.atom(x).is_radical
+                    history.append(f'commit:{x}')
             elif op == 'rollback':
                 # sparse histories cache only a few values before the transaction (which ones rotates with the arguments)
                 rb_which = READS if not sparse else [READS[(a + i * 3) % len(READS)] for i in range(3)]
                 before_plain, before_vals = plain(m), derived(m, rb_which)
                 x = nums[a % len(nums)]
+                inside = []
                 try:
                     with m:
                         m.atom(x).charge = 1 if m.atom(x).charge != 1 else 0
@@ -334,10 +356,18 @@ def check_case(case, rec):
                             m.add_atom('C')
                         if c % 2 and len(m) > 2:
                             m.delete_atom(nums[(a + 1) % len(nums)])
+                        if (b // 2) % 2:
+                            y = nums[(a + 2) % len(nums)]
+                            if y != x and y in m._atoms and not m.has_bond(x, y):
+                                m.add_bond(x, y, 1)   # may close a ring / join components
+                        if (c // 2) % 3:
+                            # a validity check inside the block: derived values of the state that is about to be rejected
+                            inside = [READS[(a + i * 3) % len(READS)] for i in range(1 + (c // 2) % 3)]
+                            derived(m, inside)
                         raise RuntimeError('abort')
                 except RuntimeError:
                     pass
-                history.append('rollback')
+                history.append('rollback' + (f'(read inside: {",".join(inside)})' if inside else ''))
                 if plain(m) != before_plain:
                     rec.fail('rollback', f'{where}: molecule differs from the state before the failed transaction', sig='plain')
                     return
